@@ -158,7 +158,7 @@ pub struct WorkerArgs {
   pub only: Option<Vec<u64>>,
 }
 
-const HANG_SECS: u64 = 120;
+const HANG_SECS: u64 = 300;
 const MAX_VIOLATIONS_PER_WORKER: usize = 2;
 
 pub fn worker_main(sim: &dyn Simulation, a: WorkerArgs) -> ! {
